@@ -66,7 +66,11 @@ type Exec struct {
 	globalsSeen map[string]bool
 	globalList  []Term
 	rangeOf     map[*ssa.Range]Val
+	localArrs   []localArr      // arrays allocated by the code under verification
+	escaped     map[string]bool // by ref term: handed to a call that is not followed
+	curArgs     []Val
 	specDepth   int
+	wantResult  int // nth(k, call): result index wanted from the next spec-level call
 	nReq        int
 	coverReach  Term
 	noPanicAll  bool
@@ -687,8 +691,62 @@ func (x *Exec) fname() string {
 	return x.top.Pkg.Pkg.Name() + "." + x.top.RelString(x.top.Pkg.Pkg)
 }
 
+type localArr struct {
+	key  string
+	srt  Sort
+	id   Term
+	ref  string
+	base Term // the array object's reference (zero Term for slices produced by pure calls)
+}
+
+// noteEscapes: arguments of a call that is not followed may make a local array
+// reachable for the callee (its address, or a slice of it).
+func (x *Exec) noteEscapes(args []Val) {
+	if len(x.localArrs) == 0 {
+		return
+	}
+	if x.escaped == nil {
+		x.escaped = map[string]bool{}
+	}
+	for _, a := range args {
+		var ts []Term
+		ts = append(ts, a.L...)
+		if a.A != nil {
+			ts = append(ts, a.A.Base, a.A.SliceID)
+		}
+		for _, t := range ts {
+			if t.S == "" {
+				continue
+			}
+			for _, la := range x.localArrs {
+				if !x.escaped[la.ref] && (strings.Contains(t.S, la.ref) || strings.Contains(t.S, la.id.S)) {
+					x.escaped[la.ref] = true
+				}
+			}
+		}
+	}
+}
+
 // havocEffects replaces every heap key matched by eff with a fresh array.
 func (x *Exec) havocEffects(st *State, eff *Effects, tag string) {
+	// local arrays that never escaped keep their content
+	type keep struct {
+		la  localArr
+		old Term
+	}
+	var keeps []keep
+	for _, la := range x.localArrs {
+		if x.escaped[la.ref] || !(eff.All || eff.matches(la.key)) {
+			continue
+		}
+		keeps = append(keeps, keep{la, Select(x.heapGet(st, la.key, la.srt), la.id)})
+	}
+	defer func() {
+		for _, k := range keeps {
+			cur := x.heapGet(st, k.la.key, k.la.srt)
+			x.heapSet(st, k.la.key, Store(cur, k.la.id, k.old))
+		}
+	}()
 	x.inst++
 	tag = fmt.Sprintf("%s_%d", tag, x.inst)
 	if eff.All || len(eff.Keys) > 0 {
